@@ -146,6 +146,9 @@ func (f *Frame) eval(e Expr, c *evalCtx) Val {
 		if v, ok := un.eng.globalByName(f, x.Name, c.cur); ok {
 			return v
 		}
+		if v, ok := f.uncapturedOuter(x.Name); ok {
+			return v
+		}
 		f.fail("unknown identifier %q", x.Name)
 	case EUnary:
 		switch x.Op {
@@ -1424,4 +1427,52 @@ func (f *Frame) evalGoals(cl *Clause, env map[string]Val, cur, old *State) []Ter
 		}
 	}
 	return out
+}
+
+// uncapturedOuter: a closure's contract names a parameter or local of an enclosing function that the closure does not (or
+// no longer) capture. The closure cannot know that value: the name stands for an arbitrary value of its type, so a clause
+// that depends on it fails as a named obligation instead of making the whole contract unreadable.
+func (f *Frame) uncapturedOuter(name string) (Val, bool) {
+	if f.fn == nil || f.fn.Parent() == nil {
+		return Val{}, false
+	}
+	for p := f.fn.Parent(); p != nil; p = p.Parent() {
+		var t types.Type
+		for _, q := range p.Params {
+			if q.Name() == name {
+				t = q.Type()
+			}
+		}
+		if t == nil {
+			for _, q := range p.FreeVars {
+				if q.Name() == name {
+					if pt, ok := q.Type().Underlying().(*types.Pointer); ok {
+						t = pt.Elem()
+					}
+				}
+			}
+		}
+		if t == nil {
+			for _, b := range p.Blocks {
+				for _, in := range b.Instrs {
+					if d, ok := in.(*ssa.DebugRef); ok && d.Object() != nil && d.Object().Name() == name && !d.IsAddr {
+						t = d.X.Type()
+					}
+				}
+			}
+		}
+		if t != nil {
+			if f.un.outer == nil {
+				f.un.outer = map[string]Val{}
+			}
+			if v, ok := f.un.outer[name]; ok {
+				return v, true
+			}
+			v := Val{T: f.un.fresh("uncaptured_"+name, f.un.u.SortOf(t)), Go: t}
+			f.un.outer[name] = v
+			f.un.note("the contract names " + name + ", a variable of the enclosing function that the closure does not capture: arbitrary value")
+			return v, true
+		}
+	}
+	return Val{}, false
 }
